@@ -32,9 +32,9 @@ def funcHashes : List (String × String) := [
   ("provider.IdentityProvider.certificateHandleFunc", "1fbec9a4a0a00a13"),
   ("provider.IdentityProviderConfig.getMetadata", "f32db56ba7c6f926"),
   ("provider.Config.getMetadata", "fea4a979e8982a82"),
-  ("provider.Provider.GetMetadata", "7071a0e32615d3df"),
+  ("provider.Provider.GetMetadata", "a27527b186082fd9"),
   ("provider.Provider.metadataHandle", "0fc2ad245ec7d6e4"),
-  ("provider.getMetadataCert", "0309c38d5f38fb6d"),
+  ("provider.getMetadataCert", "e357009fdf6a2058"),
   ("provider.CreateRouter", "3288756f8d4855fd"),
   ("provider.NewProvider", "1df52f88b4831174"),
   ("provider.NewIdentityProvider", "d8b36fe2a888eaa3"),
